@@ -18,6 +18,8 @@ from vf.oracles import sigdef as S
 HOSTILE = ['plain', 'with, comma', 'dq "quoted"', "sq 'single'", ' lead trail ', 'line\nfeed', 'crlf\r\nname', 'tab\there', 'Ünïcödé ß', '日本語の名前',
            '😀 emoji 𝔘', '‮rtl‬ mark', 'semi;colon', 'back\\slash', 'x' * 120, '=formula()', '#hash', 'a,b\n"c"', 'percent % s {0}']
 CR_NAMES = ['bare\rcr', 'cr at end\r', '\rcr first']
+# names used exactly as they are (no running number appended): text that looks like a number, a boolean or a missing value
+EXACT = ['None', 'null', 'true', 'False', 'NaN', 'inf', '1e5', '0', '1.0', '-1', '007', ' ', 'N/A', '1,5', '""']
 RANKS = ['genus', 'species', 'subspecies', None, 'strain']
 
 
@@ -197,7 +199,7 @@ def gen_taxonomy(rng, w, nt=None, conflict_bias=False, names='hostile', cr_names
 	pool = list(HOSTILE) + (CR_NAMES if cr_names else [])
 	for i in range(nt):
 		parent = None if (i == 0 or rng.random() < 0.12) else w.taxa[rng.randrange(i)]
-		nm = f'Taxon {i}' if names == 'plain' or rng.random() < 0.4 else f'{rng.choice(pool)} {i}'
+		nm = f'Taxon {i}' if names == 'plain' or rng.random() < 0.4 else (f'{rng.choice(pool)} {i}' if rng.random() < 0.9 else rng.choice(EXACT))
 		w.taxa.append(TX.T(i, parent, None, rng.random() < 0.8, nm))
 		w.tinfo.append(dict(key=f'verif/{w.tag}/t{i}', rank=rng.choice(RANKS), ncbi_id=rng.choice([None, 1000 + i]), description=rng.choice([None, 'desc'])))
 	if conflict_bias and nt >= 4:
@@ -223,7 +225,7 @@ def assign_thresholds(rng, w):
 
 
 def add_genome(w, rng, j, taxon, sig, contigs=None, names_pool=HOSTILE):
-	desc = f'Genome {j}' if rng.random() < 0.5 else f'{rng.choice(names_pool)} g{j}'
+	desc = f'Genome {j}' if rng.random() < 0.5 else (f'{rng.choice(names_pool)} g{j}' if rng.random() < 0.9 or names_pool == ['plain'] else rng.choice(EXACT + ['']))
 	w.genomes.append(dict(key=f'verif/{getattr(w, "tag", "0")}/g{j}', description=desc, taxon=taxon, genbank_acc=f'GCA_{j:06d}.1', refseq_acc=f'GCF_{j:06d}.1',
 	                      ncbi_db='assembly', ncbi_id=5000 + j * 7, sig=sorted(sig), contigs=contigs, organism=f'Org {j}'))
 
